@@ -145,6 +145,26 @@ def handbuilt_cases(bases):
     return out
 
 
+def unterminated_string_tables(base):
+    """the base map with its STR section replaced by tables in which some offset never reaches a NUL: no stored strings
+    and 200 ids pointing into the (zero-free) offset table; a last string without its terminator; offsets at / past the
+    end.  Loading or saving such a map must raise, or what is emitted must be a valid table."""
+    import struct
+    out = []
+    tables = {
+        "ids-into-offset-table": struct.pack("H", 200) + struct.pack("H", 0x0101) * 200,
+        "last-string-unterminated": struct.pack("HHH", 2, 6, 8) + b"a\0bcd",
+        "offset-at-end": struct.pack("HH", 1, 6) + b"a\0",
+        "offset-past-end": struct.pack("HH", 1, 600) + b"a\0",
+        "no-data-one-id": struct.pack("HH", 1, 2),
+    }
+    for nm, payload in tables.items():
+        b = b"".join(n + len(payload if n == b"STR " else p).to_bytes(4, "little") + (payload if n == b"STR " else p)
+                     for n, p in SC.chunks_of(base))
+        out.append((f"str-table:{nm}", b, {"pool": {"locs": [], "cuwps": [], "switches": []}, "ops": []}))
+    return out
+
+
 def empty_object_cases(bases):
     """authored objects whose CONTENT is that of an empty slot (an all-zero location without a name, an all-zero
     unit-property set): the rich layer gives them a slot and points the trigger at it, but what it writes there is
@@ -212,6 +232,22 @@ def run(ck: vlib.Check):
         ck.evaluations += 1
         ck.note_case(label)
         hows["handbuilt"] = hows.get("handbuilt", 0) + 1
+        if r[0] == 0:
+            outcomes["raises"] += 1
+            continue
+        problems = validator.validate(bytes(r[1]))
+        if problems:
+            ck.violation(f"{label}: the emitted CHK is not structurally valid: {problems[0]}",
+                         {"kind": "invalid", "label": label, "base_hex": base.hex(), "spec": spec, "problems": problems[:5]}, True)
+        else:
+            outcomes["valid-output"] += 1
+    # maps whose string table cannot be read to the end: implementation only (raise, or emit something valid)
+    plain = SC.MapGen(random.Random(15), "editor", nloc=255, all_sections=True, ntrig=0, loc_density=0.0, swnm_density=0.0).build()
+    for label, base, spec in unterminated_string_tables(plain):
+        r = A.run_impl(base, spec)
+        ck.evaluations += 1
+        ck.note_case(label)
+        hows["unterminated-str"] = hows.get("unterminated-str", 0) + 1
         if r[0] == 0:
             outcomes["raises"] += 1
             continue
